@@ -28,7 +28,7 @@ def strSpec (env : Env) (kw : Kw) (s : String) : Prop :=
   kw.permits "string" = true ∧
   kw.minLength ≤ s.length ∧
   (∀ m, kw.maxLength = some m → s.length ≤ m) ∧
-  (kw.pattern ≠ "" → env.regex kw.pattern s = some true) ∧
+  (env.patOff = false → kw.pattern ≠ "" → env.regex kw.pattern s = some true) ∧
   (kw.format ≠ "" → env.strFormat kw.format s ≠ some false)
 
 def arrSpec (kw : Kw) (xs : List J) : Prop :=
@@ -117,7 +117,7 @@ def numSpecB (kw : Kw) (q : Rat) : Bool :=
 def strSpecB (env : Env) (kw : Kw) (s : String) : Bool :=
   kw.permits "string" && decide (kw.minLength ≤ s.length) &&
   (match kw.maxLength with | some m => decide (s.length ≤ m) | none => true) &&
-  (kw.pattern == "" || env.regex kw.pattern s == some true) &&
+  (env.patOff || kw.pattern == "" || env.regex kw.pattern s == some true) &&
   (kw.format == "" || env.strFormat kw.format s != some false)
 
 def arrSpecB (kw : Kw) (xs : List J) : Bool :=
